@@ -39,8 +39,13 @@ def jtable(t, ix_order=None):
     return out
 
 
-def jop(o):
+def jop(o, schema=None):
     o = dict(o)
+    # under schema=, a foreign key added without referent_schema cannot be resolved (NoReferencedTableError)
+    if o["op"] == "add_fk":
+        o["unresolved"] = bool(schema and o.get("unqualified"))
+    if o["op"] == "add_column" and o.get("fk"):
+        o["fk"] = dict(o["fk"], cols=[o["col"]["name"]], unresolved=bool(schema and o["fk"].get("unqualified")))
     if o["op"] == "add_column":
         c = dict(o["col"])
         c["dval"] = jvalue(c.get("dval"))
@@ -191,13 +196,17 @@ def ix_order_of(stmts, table):
 # ------------------------------------------------------------------------------- one case
 
 def new_case(table, ops, recreate="always", copy_from=False, fault=None, scope="none", iso="default", tddl=None,
-             fkind="exception", pr=None):
+             fkind="exception", pr=None, schema=None, main_twin=False):
+    """schema: the table lives in an ATTACHed database of that name (batch_alter_table(..., schema=...)); main_twin: a different
+    table of the same name exists in `main`"""
+    if schema:
+        table = dict(table, schema=schema)
     return {"table": table, "ops": ops, "recreate": recreate, "copy_from": copy_from, "fault": fault, "scope": scope,
-            "iso": iso, "tddl": tddl, "fkind": fkind, "pr": pr}
+            "iso": iso, "tddl": tddl, "fkind": fkind, "pr": pr, "schema": schema, "main_twin": bool(main_twin and schema)}
 
 
 def run_impl(case):
-    db = bi.Db(case["table"], bg.PARENT_SQL, iso=case.get("iso", "default"))
+    db = bi.Db(case["table"], bg.PARENT_SQL, iso=case.get("iso", "default"), main_twin=case.get("main_twin", False))
     try:
         return bi.run_batch(db, case["ops"], recreate=case["recreate"], copy_from=case["copy_from"],
                             fault=case["fault"], scope=case["scope"], universe=bg.universe(case["table"], case["ops"]),
@@ -212,7 +221,7 @@ def run_two_step(case, st):
     {recreate_empty: an empty table is first re-created under the original name, copy_from: step 2 is given the
     original Table (no reflection), fault, scope, tddl}.  Returns (r1, case2, r2); r2 is None when step 1 did not end
     in the wanted state."""
-    db = bi.Db(case["table"], bg.PARENT_SQL, iso=case.get("iso", "default"))
+    db = bi.Db(case["table"], bg.PARENT_SQL, iso=case.get("iso", "default"), main_twin=case.get("main_twin", False))
     try:
         uni = bg.universe(case["table"], case["ops"])
         r1 = bi.run_batch(db, case["ops"], recreate=case["recreate"], copy_from=case["copy_from"], fault=case["fault"],
@@ -222,11 +231,11 @@ def run_two_step(case, st):
             return r1, None, None
         if st.get("recreate_empty"):
             with db.engine.connect() as conn:
-                conn.exec_driver_sql(bi.create_table_sql(dict(orig0, rows=[])))
+                conn.exec_driver_sql(bi.create_table_sql(dict(orig0, rows=[], schema=case.get("schema"))))
                 conn.commit()
         case2 = new_case(case["table"], case["ops"], case["recreate"], dict(orig0, rows=[]) if st.get("copy_from") else False,
                          st.get("fault"), st.get("scope", "none"), case.get("iso", "default"), st.get("tddl"),
-                         st.get("fkind", "exception"))
+                         st.get("fkind", "exception"), schema=case.get("schema"), main_twin=case.get("main_twin", False))
         case2["orig0"] = orig0
         case2["two_step"] = {"step1": {k: case.get(k) for k in ("copy_from", "fault", "scope", "tddl", "fkind")}, "step2": dict(st)}
         r2 = bi.run_batch(db, case2["ops"], recreate=case2["recreate"], copy_from=case2["copy_from"], fault=case2["fault"],
@@ -246,20 +255,21 @@ def model_op(case, r):
         "copy_from_schema": jtable(cf) if cf else None,
         "reflected": not case["copy_from"],
         "always": case["recreate"] == "always",
-        "ops": [jop(o) for o in case["ops"]],
+        "ops": [jop(o, case.get("schema")) for o in case["ops"]],
         "fault": case["fault"],
         "commitOnError": case["scope"] == "swallow",
         "mode": case.get("iso", "default"),
         "tddl": bool(case.get("tddl")),
         "fault_kind": case.get("fkind", "exception"),
         "partial_reordering": case.get("pr") or [],
+        "schema": case.get("schema"),
         "db": {"orig": jtable(before, ix_order_of(r["stmts"], before)) if before else None, "tmp": jtable(r["before"].get("tmp"))},
         "convs": conv_table(src, case["ops"]) if src else [],
     }
 
 
 def spec10_op(case, r):
-    return {"op": "batch.spec10", "table": case["table"]["name"], "ops": [jop(o) for o in case["ops"]],
+    return {"op": "batch.spec10", "table": case["table"]["name"], "ops": [jop(o, case.get("schema")) for o in case["ops"]],
             "before": jtable(r["before"]["orig"]), "after": jtable(r["fresh"]["orig"]),
             "tmp_like": r["fresh"]["tmp_like"], "convs": conv_table(r["before"]["orig"], case["ops"]),
             "partial_reordering": case.get("pr") or []}
@@ -279,10 +289,21 @@ def spec11_op(case, r, view="fresh"):
     # second step of a two-step scenario: the rows to be retrievable are those of the very first table (`orig0`);
     # the early clauses (original untouched / temp table gone) speak about a single run and are not applied
     before = case.get("orig0") or r["before"]["orig"]
-    return {"op": "batch.spec11", "ops": [jop(o) for o in case["ops"]], "before": jtable(before),
+    return {"op": "batch.spec11", "ops": [jop(o, case.get("schema")) for o in case["ops"]], "before": jtable(before),
             "early": False if case.get("orig0") else failed_early(r["stmts"]),
             "after": {"orig": jtable(r[view]["orig"]), "tmp": jtable(r[view]["tmp"])},
             "convs": conv_table(before, case["ops"])}
+
+
+def main_untouched(r):
+    """with schema=: whatever `main` holds (a table of the same name, no temp tables) is exactly what it was"""
+    why = []
+    for view in ("same", "fresh"):
+        if r["before"].get("main") != r[view].get("main") or r["before"].get("main_rows") != r[view].get("main_rows"):
+            why.append("schema: the batch on %s.%s changed the main database: %s -> %s" % (
+                "aux", "t", r["before"].get("main"), r[view].get("main")))
+            break
+    return why
 
 
 def compare(case, r, m):
